@@ -86,13 +86,14 @@ func c07Running(l *vlog) map[string]string {
 
 func c07Run(c string) string {
 	c07Cases++
-	if c07Cases%150 == 0 {
-		c07Srv.stop()
+	if c07Cases%150 == 0 { // a fresh instance; the old one shuts down in the background
+		old := c07Srv
 		var err error
 		c07Srv, err = busStart("R", "", nil)
 		if err != nil {
 			panic("C07: " + err.Error())
 		}
+		go old.stop()
 	}
 	prefix := fmt.Sprintf("k%d-", c07Cases)
 	nc := c07Srv.nc
